@@ -129,6 +129,10 @@ def run_case(case):
                          'step, expected %d' % (calls - last['calls'], want))
             last['calls'] = calls
         last['rows'] = rows
+        # the counter right after the batch (before the checkpoint write)
+        if int(s.n_like) != rows:
+            res.viol('count', 'after-batch', 'n_like=%d, likelihood saw %d '
+                     'rows' % (s.n_like, rows))
 
     lab = sl.Lab(spec, cfg, use_file=True, observers=[on_event], clock=True)
     plog = instrument_prior(lab)
